@@ -87,6 +87,8 @@ fn sim_case(ctx: &Ctx, out: &mut Outcome, rng: &mut Rng, idx: u64) {
     let node_seeds: Vec<Rng> = (0..nnodes).map(|i| rng.fork(100 + i as u64)).collect();
     let pre_existing_file = rng.chance(1, 2);
     let jump_permille = *rng.pick(&[20u64, 60, 150]);
+    let contention_burst = rng.chance(1, 6);
+    let contention_from = rng.below(6);
 
     let (events, decisions, hung, jumps) = sim::run_sim(async move {
         clock::freeze_wall(clock::SIM_EPOCH_NS);
@@ -99,6 +101,11 @@ fn sim_case(ctx: &Ctx, out: &mut Outcome, rng: &mut Rng, idx: u64) {
             }
         }
         let start = ctl.events_len();
+        // a sixth of the schedules: a burst of lost compare-and-swap races on the lease file (5 = a client's whole
+        // retry budget: "conflict-retry exhaustion" in the property's quantifier)
+        if contention_burst {
+            ctl.set_contention(Some(sim::Contention { path_contains: "compaction-leases".into(), from: contention_from, count: 5 }));
+        }
         ctl.set_gating(true);
         let mut handles = vec![];
         for (a, mut nrng) in node_seeds.into_iter().enumerate() {
@@ -185,7 +192,9 @@ fn sim_case(ctx: &Ctx, out: &mut Outcome, rng: &mut Rng, idx: u64) {
             "events": events.iter().map(|e| e.brief()).collect::<Vec<_>>()})
     };
     let ops = op_records(&events);
-    let puts = committed_puts(&events, "compaction-leases.json");
+    // (the contender's same-content rewrites change nothing in the table: not versions of interest)
+    let puts: Vec<_> = committed_puts(&events, "compaction-leases.json").into_iter().filter(|p| p.1 != "contender").collect();
+    out.count("lost_cas_races_injected", events.iter().filter(|e| e.actor == "contender" && !e.call).count() as u64);
     out.count("sim.lease_file_versions_checked", puts.len() as u64);
     out.count("sim.operations", ops.len() as u64);
 
